@@ -75,6 +75,15 @@ mod simd_impl {
         clamp_simd(x, -la, la)
     }
 
+    /// Division by `2^k` that truncates toward zero like the scalar `/` (and Annex J),
+    /// unlike a plain arithmetic shift, which rounds negative values down.
+    #[inline]
+    fn div_pow2_simd(x: i16x8, k: i32) -> i16x8 {
+        let bias: i16x8 = x.shr(15) & i16x8::splat((1 << k) - 1);
+        let biased: i16x8 = x + bias;
+        biased.shr(k)
+    }
+
     /// Utility to upcast and convert a slice of 8 `u8` values into a `i16x8` vector.
     #[inline]
     fn into_simd16(a: &[u8]) -> i16x8 {
@@ -104,9 +113,9 @@ mod simd_impl {
         let c16 = into_simd16(C);
         let d16 = into_simd16(D);
 
-        let d: i16x8 = (a16 - 4 * b16 + 4 * c16 - d16).shr(3);
+        let d: i16x8 = div_pow2_simd(a16 - 4 * b16 + 4 * c16 - d16, 3);
         let d1: i16x8 = up_down_ramp_simd(d, strength as i16);
-        let d2: i16x8 = clipd1_simd((a16 - d16).shr(2), d1.shr(1));
+        let d2: i16x8 = clipd1_simd(div_pow2_simd(a16 - d16, 2), div_pow2_simd(d1, 1));
 
         let res_a = a16 - d2;
         let res_b = clamp_simd(b16 + d1, i16x8::ZERO, i16x8::splat(255));
